@@ -202,6 +202,10 @@ def run(R, tier):
                         mac = st.get("mac") or []
                         if var in device_specific_ok:
                             okk = ("parser_unreachable" in mac) or "format_response_data" in body.npath
+                            if not okk:
+                                from . import dispatch as D_
+                                roots = tuple(sorted({x.npath for un in P.units for x in un.bodies if "format_response_data" in x.npath}))
+                                okk = D_.only_reached_from(P, body.npath, roots)
                             R.check(okk, "R14.5", key, "device-specific error only in parser_unreachable! / empty-list response", "DeviceSpecificError (-300) constructed outside parser_unreachable!/empty list: the library's own internal error would surface for user input", where=st.get("line"))
                         elif var in execution:
                             R.check(mask == 0x10, "R14.5", key, "value fault -> execution error class", "value-fault error %s has code %s outside the execution-error class" % (var, code), where=st.get("line"))
